@@ -260,17 +260,31 @@ pub fn emit_function(fi: usize, plans: &[FnPlan]) -> Vec<Stmt> {
 
 pub fn emit_main(calls: &[usize], plans: &[FnPlan], _arg: i32) -> Vec<Stmt> {
     let mut s = vec![label("main")];
-    // the argument handed to the callees comes from the input, kept in s0
+    // the argument handed to the callees comes from the input, kept in s0 - or, in the
+    // variant with a frame (taken when the first function keeps a second saved register
+    // busy), in a stack slot of main
     let passes_args = calls.iter().any(|g| plans[*g].arity >= 1);
+    let frame = passes_args && plans.first().map(|p| p.extra_saved.is_some()).unwrap_or(false);
+    if frame {
+        s.push(addi(SP, SP, -8));
+    }
     if passes_args {
         s.push(li(A7, 5));
         s.push(ecall());
-        s.push(mv(S0, A0));
+        if frame {
+            s.push(sw(A0, 4, SP));
+        } else {
+            s.push(mv(S0, A0));
+        }
     }
     for &g in calls.iter() {
         let gp = &plans[g];
         if gp.arity >= 1 {
-            s.push(mv(A0, S0));
+            if frame {
+                s.push(lw(A0, 4, SP));
+            } else {
+                s.push(mv(A0, S0));
+            }
         }
         if gp.arity >= 2 {
             s.push(li(A1, 1));
@@ -281,6 +295,9 @@ pub fn emit_main(calls: &[usize], plans: &[FnPlan], _arg: i32) -> Vec<Stmt> {
             s.push(li(A7, 1));
             s.push(ecall());
         }
+    }
+    if frame {
+        s.push(addi(SP, SP, 8));
     }
     s.push(li(A7, 10));
     s.push(ecall());
